@@ -217,7 +217,7 @@ def run_cases(ctx, cases, tag="t"):
         d = os.path.join(workdir, "s%d" % k)
         os.makedirs(d, exist_ok=True)
         for c in sh:
-            if c["mode"] != "real":
+            if c["mode"] not in ("real", "realxmlq"):
                 c["trace"] = os.path.join(d, c["id"] + ".ndjson")
         res = vlib.replay_cases(binary, sh, nproc=1, timeout=1200, args=[d])
         bad = vlib_validate(ctx, sh, res, "%s%d" % (tag, k))
